@@ -53,7 +53,7 @@ EXTRAPS = ["None", "nan", "const", "tensor0d", "callable", "bound", "mirror", "p
            "zero_tensor"]
 ORDERS = ["sorted_assume", "sorted", "reversed", "shuffled"]
 YATS = ["init", "call", "both"]
-YBATCH = {"0d": (), "2": (2,), "2x3": (2, 3)}
+YBATCH = {"0d": (), "2": (2,), "2x3": (2, 3), "3x1": (3, 1)}     # 3x1: a non-leading batch axis of length 1
 CONST_VAL = 1.5
 TENSOR_VAL = -0.75
 
@@ -240,6 +240,8 @@ def query_sets(xs, dtype):
         ("shufB", thirds[:n][ic.fixed_perm(n)]),
         ("outside", outside),
         ("mixS", np.array([b + 0.4 * L, thirds[1], a - 0.3 * L])),
+        # unsorted, FIRST and LAST query inside the sample range, the others outside on both sides
+        ("inOutIn", np.array([thirds[1], a - 0.3 * L, b + 0.4 * L, a - 0.9 * L, thirds[2]])),
         ("mixL", big),
         ("empty", np.zeros(0)),
     ]
